@@ -1,12 +1,468 @@
 package verifh
 
-// AnimOp: placeholder until the animation workloads are wired.
-type AnimOp struct {
+import (
+	"bytes"
+	"errors"
+	"fmt"
+	"image"
+	"image/color"
+	"time"
+
+	"github.com/deepteams/webp/animation"
+)
+
+// AnimSpec is a seeded history of AddFrame calls on the animation encoder.
+type AnimSpec struct {
+	W, H       int      `json:"-"`
+	CW         int      `json:"w"`
+	CH         int      `json:"h"`
+	Seed       uint64   `json:"seed"`
+	Alpha      string   `json:"alpha"` // opaque binary graded
+	Frames     []AFrame `json:"frames"`
+	Lossless   bool     `json:"lossless"`
+	AllowMixed bool     `json:"mixed,omitempty"`
+	Quality    int      `json:"q"`
+	Kmin       int      `json:"kmin"`
+	Kmax       int      `json:"kmax"`
+	Loop       int      `json:"loop"`
+	Bg         uint32   `json:"bg,omitempty"`
+	ICCLen     int      `json:"icc"`
+	EXIFLen    int      `json:"exif"`
+	XMPLen     int      `json:"xmp"`
+	// FailCalls: ordinal numbers (0-based, per history) of *tolerated* frame-codec
+	// calls that the fault injector makes fail: alternate-codec calls in mixed mode
+	// and dispose-background candidate calls.
+	FailAlt bool `json:"fail_alt,omitempty"`
+	FailBG  bool `json:"fail_bg,omitempty"`
+}
+
+type AFrame struct {
+	Mut  string `json:"mut"` // first same pixel rect big alphaonly semi small
+	Dur  int    `json:"dur_ms"`
 	Seed uint64 `json:"seed"`
 }
 
-func GenAnimDecodeOp(r *RNG) AnimOp { return AnimOp{Seed: r.Next()} }
+func (a AnimSpec) String() string {
+	muts := ""
+	for _, f := range a.Frames {
+		muts += fmt.Sprintf("%s/%d ", f.Mut, f.Dur)
+	}
+	return fmt.Sprintf("anim %dx%d %s lossless=%v mixed=%v q%d kmin%d kmax%d loop%d frames[%s]", a.CW, a.CH, a.Alpha, a.Lossless, a.AllowMixed, a.Quality, a.Kmin, a.Kmax, a.Loop, muts)
+}
 
-func execC10D(p *C10Params, x *X) *Violation { return nil }
+var animDurations = []int{0, 1, 40, 40, 100, 1 << 24 - 2, 1<<24 - 1}
+var animMuts = []string{"same", "pixel", "rect", "rect", "big", "alphaonly", "semi", "small"}
 
-func warmUpExtra() {}
+func GenAnimSpec(r *RNG, maxSide, maxFrames int, lossless bool, alphaPct int) AnimSpec {
+	a := AnimSpec{Seed: r.Next(), Lossless: lossless, ICCLen: -1, EXIFLen: -1, XMPLen: -1}
+	a.CW, a.CH = genSide(r, 1, maxSide), genSide(r, 1, maxSide)
+	a.Alpha = "opaque"
+	if r.Pct(alphaPct) {
+		a.Alpha = r.PickS("binary", "graded", "graded")
+	}
+	a.Quality = r.Pick(0, 30, 50, 75, 90, 100)
+	switch r.Intn(4) {
+	case 0:
+		a.Kmin, a.Kmax = 0, 0
+	case 1:
+		a.Kmin, a.Kmax = 0, 1
+	case 2:
+		a.Kmin, a.Kmax = r.Pick(0, 1, 2), r.Pick(2, 3, 5)
+	default:
+		a.Kmin, a.Kmax = r.Pick(0, 3, 9), r.Pick(100, 1<<20)
+	}
+	a.Loop = r.Pick(0, 0, 1, 3, 65535)
+	if r.Pct(30) {
+		a.Bg = uint32(r.Next())
+	}
+	if r.Pct(15) {
+		a.ICCLen, a.EXIFLen, a.XMPLen = r.Pick(-1, 0, 3, 8), r.Pick(-1, 1, 4), r.Pick(-1, 5, 6)
+	}
+	n := r.Range(1, maxFrames)
+	for i := 0; i < n; i++ {
+		f := AFrame{Seed: r.Next(), Dur: animDurations[r.Intn(len(animDurations))]}
+		if r.Pct(70) {
+			f.Dur = r.Pick(10, 20, 40, 100, 1000)
+		}
+		if i == 0 {
+			f.Mut = "first"
+		} else {
+			f.Mut = animMuts[r.Intn(len(animMuts))]
+		}
+		a.Frames = append(a.Frames, f)
+	}
+	return a
+}
+
+func randPixel(r *RNG, alpha string) color.NRGBA {
+	v := r.Next()
+	c := color.NRGBA{uint8(v), uint8(v >> 8), uint8(v >> 16), 255}
+	switch alpha {
+	case "binary":
+		if (v>>24)&3 == 0 {
+			c.A = 0
+		}
+	case "graded":
+		switch (v >> 24) % 8 {
+		case 0:
+			c.A = 0
+		case 1:
+			c.A = 1
+		case 2:
+			c.A = 127
+		case 3:
+			c.A = 128
+		case 4:
+			c.A = 254
+		case 5:
+			c.A = uint8(v >> 32)
+		}
+	}
+	return c
+}
+
+// Canvases returns the images passed to AddFrame and the full canvases they mean.
+func (a AnimSpec) Canvases() (inputs []image.Image, canvases []*image.NRGBA) {
+	w, h := a.CW, a.CH
+	var prev *image.NRGBA
+	for i, f := range a.Frames {
+		r := NewRNG(f.Seed)
+		cur := image.NewNRGBA(image.Rect(0, 0, w, h))
+		if prev != nil {
+			copy(cur.Pix, prev.Pix)
+		}
+		var input image.Image
+		switch f.Mut {
+		case "first", "big":
+			fam := r.PickS("flat", "hgrad", "smooth", "noise", "pal", "text")
+			alpha := "opaque"
+			switch a.Alpha {
+			case "binary":
+				alpha = r.PickS("blocks", "stripes", "single")
+			case "graded":
+				alpha = r.PickS("levels", "gradient", "noise", "blocks")
+			}
+			src := Generate(ImgSpec{Family: fam, W: w, H: h, Seed: r.Next(), Colors: 6, Alpha: alpha, Levels: 4, Type: "nrgba"}).(*image.NRGBA)
+			copy(cur.Pix, src.Pix)
+			if a.Alpha == "graded" {
+				// make sure some semi-transparent pixels exist
+				for k := 0; k < 1+w*h/8; k++ {
+					x, y := r.Intn(w), r.Intn(h)
+					cur.Pix[y*cur.Stride+4*x+3] = uint8(r.Pick(1, 127, 128, 200, 254))
+				}
+			}
+		case "same":
+		case "pixel":
+			x, y := r.Intn(w), r.Intn(h)
+			cur.SetNRGBA(x, y, randPixel(r, a.Alpha))
+		case "rect":
+			rw, rh := 1+r.Intn(imax(1, w/2)), 1+r.Intn(imax(1, h/2))
+			x0, y0 := r.Intn(w-rw+1), r.Intn(h-rh+1)
+			if x0%2 == 0 && x0+1+rw <= w {
+				x0++ // odd offsets on purpose
+			}
+			if y0%2 == 0 && y0+1+rh <= h {
+				y0++
+			}
+			for y := y0; y < y0+rh; y++ {
+				for x := x0; x < x0+rw; x++ {
+					cur.SetNRGBA(x, y, randPixel(r, a.Alpha))
+				}
+			}
+		case "alphaonly":
+			rw, rh := 1+r.Intn(imax(1, w/2)), 1+r.Intn(imax(1, h/2))
+			x0, y0 := r.Intn(w-rw+1), r.Intn(h-rh+1)
+			for y := y0; y < y0+rh; y++ {
+				for x := x0; x < x0+rw; x++ {
+					if a.Alpha != "opaque" {
+						cur.Pix[y*cur.Stride+4*x+3] = randPixel(r, a.Alpha).A
+					} else {
+						cur.Pix[y*cur.Stride+4*x] ^= 1
+					}
+				}
+			}
+		case "semi":
+			// change two far-apart pixels so that the changed rectangle contains
+			// unchanged (possibly semi-transparent) neighbours
+			x1, y1 := r.Intn(imax(1, w/2)), r.Intn(imax(1, h/2))
+			x2, y2 := w-1-r.Intn(imax(1, w/2)), h-1-r.Intn(imax(1, h/2))
+			p1, p2 := randPixel(r, "opaque"), randPixel(r, "opaque")
+			cur.SetNRGBA(x1, y1, p1)
+			cur.SetNRGBA(x2, y2, p2)
+		case "small":
+			// an image smaller than the canvas: placed at (0,0) on a transparent canvas
+			sw, sh := 1+r.Intn(w), 1+r.Intn(h)
+			small := image.NewNRGBA(image.Rect(0, 0, sw, sh))
+			for y := 0; y < sh; y++ {
+				for x := 0; x < sw; x++ {
+					small.SetNRGBA(x, y, randPixel(r, a.Alpha))
+				}
+			}
+			for k := range cur.Pix {
+				cur.Pix[k] = 0
+			}
+			for y := 0; y < sh; y++ {
+				copy(cur.Pix[y*cur.Stride:y*cur.Stride+4*sw], small.Pix[y*small.Stride:y*small.Stride+4*sw])
+			}
+			if sw != w || sh != h {
+				input = small
+			}
+		default:
+			panic("unknown mutation " + f.Mut)
+		}
+		_ = i
+		if input == nil {
+			c := image.NewNRGBA(cur.Rect)
+			copy(c.Pix, cur.Pix)
+			input = c
+		}
+		inputs = append(inputs, input)
+		canvases = append(canvases, cur)
+		prev = cur
+	}
+	return
+}
+
+func imax(a, b int) int {
+	if a > b {
+		return a
+	}
+	return b
+}
+
+// AnimOp: an encode-then-decode of an animation used by C10 workload D and C05.
+type AnimOp struct {
+	Spec     AnimSpec `json:"spec"`
+	Corrupt  []int    `json:"corrupt_frames,omitempty"` // indices of frames whose bitstream gets corrupted
+	Parallel bool     `json:"parallel"`
+}
+
+func GenAnimDecodeOp(r *RNG) AnimOp {
+	a := GenAnimSpec(r, 40, 10, r.Bool(), 40)
+	// make frames distinct so that several frames exist
+	for i := range a.Frames {
+		if i > 0 {
+			a.Frames[i].Mut = r.PickS("rect", "big", "pixel", "rect")
+		}
+	}
+	for len(a.Frames) < 3 {
+		a.Frames = append(a.Frames, AFrame{Mut: "rect", Dur: 40, Seed: r.Next()})
+	}
+	op := AnimOp{Spec: a, Parallel: true}
+	if r.Pct(35) {
+		for k := 0; k < 1+r.Intn(2); k++ {
+			op.Corrupt = append(op.Corrupt, r.Intn(len(a.Frames)))
+		}
+	}
+	return op
+}
+
+var errInjectedCodec = errors.New("verif: injected frame-codec failure")
+
+// EncodeAnim drives the animation encoder with the spec's history. It must run
+// inside a world. Returns the bytes written, AddFrame/Close errors and counters.
+type AnimEncodeResult struct {
+	Data     []byte
+	AddErr   error
+	AddErrAt int
+	CloseErr error
+	AltFails int
+	BGFails  int
+	Writer   *SimWriter
+}
+
+func EncodeAnim(a AnimSpec, inputs []image.Image, wf WriteFault) *AnimEncodeResult {
+	res := &AnimEncodeResult{AddErrAt: -1, Writer: &SimWriter{Fault: wf}}
+	enc := animation.NewEncoder(res.Writer, a.CW, a.CH, &animation.EncodeOptions{
+		LoopCount: a.Loop, BackgroundColor: color.NRGBA{uint8(a.Bg >> 16), uint8(a.Bg >> 8), uint8(a.Bg), uint8(a.Bg >> 24)},
+		Quality: a.Quality, Lossless: a.Lossless, AllowMixed: a.AllowMixed, Kmin: a.Kmin, Kmax: a.Kmax,
+	})
+	if enc == nil {
+		res.AddErr = errors.New("NewEncoder returned nil")
+		return res
+	}
+	if a.ICCLen >= 0 {
+		enc.SetICCProfile(metaBlob(a.Seed, "icc", a.ICCLen))
+	}
+	if a.EXIFLen >= 0 {
+		enc.SetEXIF(metaBlob(a.Seed, "exif", a.EXIFLen))
+	}
+	if a.XMPLen >= 0 {
+		enc.SetXMP(metaBlob(a.Seed, "xmp", a.XMPLen))
+	}
+	// tolerated codec-failure faults through the existing function seam
+	orig := animation.FrameEncoderFunc
+	if a.FailAlt || a.FailBG {
+		callInFrame := 0
+		animation.FrameEncoderFunc = func(img image.Image, lossless bool, quality int) ([]byte, error) {
+			n := callInFrame
+			callInFrame++
+			// Within one AddFrame of a sub-frame the call order is:
+			//   dispose-none primary [, alt]; dispose-bg primary [, alt]; (key-frame try)
+			// The documented tolerated failures are the alternate-codec call (any
+			// position) and the dispose-background candidate.
+			isAlt := a.AllowMixed && lossless != a.Lossless
+			if a.FailAlt && isAlt {
+				res.AltFails++
+				return nil, errInjectedCodec
+			}
+			perCand := 1
+			if a.AllowMixed {
+				perCand = 2
+			}
+			if a.FailBG && !isAlt && n == perCand && subFrameInProgress {
+				res.BGFails++
+				return nil, errInjectedCodec
+			}
+			return orig(img, lossless, quality)
+		}
+		defer func() { animation.FrameEncoderFunc = orig }()
+		for i, in := range inputs {
+			callInFrame = 0
+			subFrameInProgress = i > 0
+			if err := enc.AddFrame(in, time.Duration(a.Frames[i].Dur)*time.Millisecond); err != nil {
+				res.AddErr, res.AddErrAt = err, i
+				return res
+			}
+		}
+	} else {
+		for i, in := range inputs {
+			if err := enc.AddFrame(in, time.Duration(a.Frames[i].Dur)*time.Millisecond); err != nil {
+				res.AddErr, res.AddErrAt = err, i
+				return res
+			}
+		}
+	}
+	res.CloseErr = enc.Close()
+	res.Data = res.Writer.Data
+	return res
+}
+
+var subFrameInProgress bool
+
+// Playback reads an animation file back the way the property says: read, decode
+// all frames, reconstruct canvases in order.
+type PlaybackResult struct {
+	Anim      *animation.Animation
+	Canvases  []*image.NRGBA
+	Durations []int // ms
+	Err       error
+	Stage     string
+}
+
+func Playback(data []byte, parallel bool) *PlaybackResult {
+	pr := &PlaybackResult{}
+	anim, err := animation.DecodeBytes(data)
+	if err != nil {
+		pr.Err, pr.Stage = err, "DecodeBytes"
+		return pr
+	}
+	pr.Anim = anim
+	if parallel {
+		err = anim.DecodeFramesParallel()
+	} else {
+		err = anim.DecodeFrames()
+	}
+	if err != nil {
+		pr.Err, pr.Stage = err, "DecodeFrames"
+		return pr
+	}
+	dec, err := animation.NewAnimDecoder(anim)
+	if err != nil {
+		pr.Err, pr.Stage = err, "NewAnimDecoder"
+		return pr
+	}
+	for dec.HasNext() {
+		c, d, err := dec.NextFrame()
+		if err != nil {
+			pr.Err, pr.Stage = err, "NextFrame"
+			return pr
+		}
+		pr.Canvases = append(pr.Canvases, c)
+		pr.Durations = append(pr.Durations, int(d/time.Millisecond))
+	}
+	return pr
+}
+
+// visuallyEqual: equal pixels, fully transparent pixels compare equal whatever their colour.
+func visuallyEqual(a, b *image.NRGBA) bool {
+	if a.Rect.Dx() != b.Rect.Dx() || a.Rect.Dy() != b.Rect.Dy() {
+		return false
+	}
+	w, h := a.Rect.Dx(), a.Rect.Dy()
+	for y := 0; y < h; y++ {
+		ao, bo := a.PixOffset(a.Rect.Min.X, a.Rect.Min.Y+y), b.PixOffset(b.Rect.Min.X, b.Rect.Min.Y+y)
+		ra, rb := a.Pix[ao:ao+4*w], b.Pix[bo:bo+4*w]
+		if bytes.Equal(ra, rb) {
+			continue
+		}
+		for x := 0; x < w; x++ {
+			pa, pb := ra[4*x:4*x+4], rb[4*x:4*x+4]
+			if pa[3] == 0 && pb[3] == 0 {
+				continue
+			}
+			if !bytes.Equal(pa, pb) {
+				return false
+			}
+		}
+	}
+	return true
+}
+
+func firstVisualDiff(a, b *image.NRGBA) string {
+	if a.Rect.Dx() != b.Rect.Dx() || a.Rect.Dy() != b.Rect.Dy() {
+		return fmt.Sprintf("size %v vs %v", a.Rect, b.Rect)
+	}
+	w, h := a.Rect.Dx(), a.Rect.Dy()
+	n := 0
+	first := ""
+	for y := 0; y < h; y++ {
+		for x := 0; x < w; x++ {
+			pa := a.Pix[a.PixOffset(a.Rect.Min.X+x, a.Rect.Min.Y+y):][:4]
+			pb := b.Pix[b.PixOffset(b.Rect.Min.X+x, b.Rect.Min.Y+y):][:4]
+			if (pa[3] == 0 && pb[3] == 0) || bytes.Equal(pa, pb) {
+				continue
+			}
+			if n == 0 {
+				first = fmt.Sprintf("pixel (%d,%d): expected %v, played back %v", x, y, pa, pb)
+			}
+			n++
+		}
+	}
+	return fmt.Sprintf("%d of %d pixels differ; first %s", n, w*h, first)
+}
+
+type picture struct {
+	img *image.NRGBA
+	dur int64
+}
+
+// collapse merges consecutive visually-equal canvases, summing display times.
+func collapse(cs []*image.NRGBA, durs []int) []picture {
+	var out []picture
+	for i, c := range cs {
+		if len(out) > 0 && visuallyEqual(out[len(out)-1].img, c) {
+			out[len(out)-1].dur += int64(durs[i])
+			continue
+		}
+		out = append(out, picture{c, int64(durs[i])})
+	}
+	return out
+}
+
+func warmUpExtra() {
+	r := NewRNG(99)
+	a := GenAnimSpec(r, 12, 3, true, 100)
+	in, _ := a.Canvases()
+	res := EncodeAnim(a, in, WriteFault{})
+	if res.Data != nil {
+		Playback(res.Data, false)
+	}
+	b := GenAnimSpec(r, 12, 3, false, 0)
+	b.AllowMixed = true
+	in, _ = b.Canvases()
+	res = EncodeAnim(b, in, WriteFault{})
+	if res.Data != nil {
+		Playback(res.Data, true)
+	}
+}
